@@ -23,6 +23,9 @@ def ontology_xml(types, sources, flavour='ok', version=1):
         et = o.create_event_type(t)
         et.create_property('p', 'o')
         et.create_property('q', 'o').make_optional().make_multivalued()
+        # properties whose names are the tags the parsers stop at
+        et.create_property('event', 'o').make_optional()
+        et.create_property('ontology', 'o').make_optional()
     xml = etree.tostring(o.generate_xml())
     if flavour == 'bogus-elem':
         xml = xml.replace(b'<object-types>', b'<object-types><bogus/>', 1)
@@ -65,11 +68,19 @@ def tricky_values(idx, blank=False):
     return [pool[(idx * 5) % len(pool)]] if (idx % 2 == 0 or blank) else []
 
 
+def reserved_values(idx):
+    """Objects of the properties named `event` and `ontology` of event idx (every third event has them, ahead of the others)."""
+    return ['E:e%d' % idx, 'O:o%d' % idx] if idx % 3 == 0 else []
+
+
 def event_xml(idx, typ, source, flavour='ok', big=0, blank=False):
     e = etree.Element('{%s}event' % NS, nsmap={None: NS})
     e.set('event-type', typ)
     e.set('source-uri', source)
     props = etree.SubElement(e, '{%s}properties' % NS)
+    if flavour == 'ok' and not big and reserved_values(idx):
+        etree.SubElement(props, '{%s}event' % NS).text = 'e%d' % idx
+        etree.SubElement(props, '{%s}ontology' % NS).text = 'o%d' % idx
     etree.SubElement(props, '{%s}p' % NS).text = 'v%d' % idx
     if big:
         etree.SubElement(props, '{%s}q' % NS).text = 'x' * big
@@ -150,7 +161,8 @@ def run_parser(data, mode, regs, overridden, validate, cuts=None, file_path=None
         if idx not in seen:
             seen.add(idx)
             if 'p' in event.get_properties() and event['p']:
-                content[idx] = sorted(str(v) for v in event['q'])
+                content[idx] = sorted(str(v) for v in event['q']) + ['E:' + str(v) for v in event['event']] + \
+                    ['O:' + str(v) for v in event['ontology']]
             sizes.append(parent.index(event) + 1 if parent is not None else -1)
             state['parent'] = parent
         return idx
@@ -230,7 +242,8 @@ def run_parser_reuse(datas, regs, overridden, validate):
         if idx not in seen:
             seen.add(idx)
             if 'p' in event.get_properties() and event['p']:
-                content[idx] = sorted(str(v) for v in event['q'])
+                content[idx] = sorted(str(v) for v in event['q']) + ['E:' + str(v) for v in event['event']] + \
+                    ['O:' + str(v) for v in event['ontology']]
             sizes.append(parent.index(event) + 1 if parent is not None else -1)
             state['parent'] = parent
         return idx
@@ -305,7 +318,7 @@ def model_view(reply, items, with_children=True):
     tc = dict((k, v) for k, v in reply['typeCount'])
     seen = {c[-1] for c in reply['log'] if c[0] in ('h', 'fb')}
     by_idx = {it['idx']: it for it in items if it['k'] == 'event'}
-    content = sorted([i, sorted(tricky_values(i, by_idx[i].get('blank', False))) if (by_idx[i]['gate'] and not by_idx[i].get('big')) else
+    content = sorted([i, sorted(tricky_values(i, by_idx[i].get('blank', False))) + reserved_values(i) if (by_idx[i]['gate'] and not by_idx[i].get('big')) else
                       (['x' * by_idx[i]['big']] if by_idx[i].get('big') and by_idx[i]['gate'] else [])] for i in seen
                      if by_idx[i]['gate'] or by_idx[i].get('flavour', 'undeclared') != 'missing')
     return {'log': log, 'err': reply['err'], 'nEvents': reply['nEvents'], 'content': content,
